@@ -4,7 +4,7 @@ import PycsepVerif.Properties.C15
 /-!
 # C15, wave 4 — more of time_utils.py inside the model
 
-* the `os.name == "nt"` branch of `epoch_time_to_utc_datetime` (`Model/TimeExt.lean: toDatetimeNt`): exact
+* the `os.name == "nt"` branch of `epoch_time_to_utc_datetime` as it was before fix D39 (`Model/TimeExt.lean: toDatetimeNtOld`; the repaired code is `toDatetimeNt`, theorems `nt_repaired_*`): exact
   characterisation of the negative epochs it converts correctly, the FINDING that it is wrong for the others
   (every negative millisecond that is a multiple of 10 but not of 1000) and returns a naive datetime, and the
   correctness of the proposed one-line repair;
@@ -19,8 +19,8 @@ open Soft64
 /-! ## the Windows branch -/
 
 /-- for a non-negative epoch the Windows build takes the same path as every other platform -/
-theorem nt_nonneg_agrees (ms : Int) (h : 0 ≤ ms) : toDatetimeNt ms = (toDatetime ms, true) := by
-  unfold toDatetimeNt toDatetime
+theorem nt_nonneg_agrees (ms : Int) (h : 0 ≤ ms) : toDatetimeNtOld ms = (toDatetime ms, true) := by
+  unfold toDatetimeNtOld toDatetime
   have : ¬ (msToSecF ms < 0) := by rw [msToSecF_neg_iff]; omega
   simp only [this, if_false]
 
@@ -28,9 +28,9 @@ theorem nt_nonneg_agrees (ms : Int) (h : 0 ≤ ms) : toDatetimeNt ms = (toDateti
     `f = |ms| mod 1000` and `strip f` is `f` with its trailing decimal zeros removed (`int("5")` for `-1.5`),
     as a NAIVE datetime -/
 theorem nt_negative_value (ms : Int) (h : ms < 0) :
-    toDatetimeNt ms =
+    toDatetimeNtOld ms =
       (1000 * ms + 1000 * (((ms.natAbs % 1000 : Nat) : Int) - ((strippedFrac (ms.natAbs % 1000) : Nat) : Int)), false) := by
-  unfold toDatetimeNt
+  unfold toDatetimeNtOld
   have hneg : msToSecF ms < 0 := (msToSecF_neg_iff ms).mpr h
   simp only [hneg, if_true]
   rw [intOfDigits_reprFrac _ (Nat.mod_lt _ (by norm_num))]
@@ -46,7 +46,7 @@ theorem strippedFrac_eq_iff (f : Nat) : strippedFrac f = f ↔ (f % 10 ≠ 0 ∨
 /-- **C15 on Windows, exact characterisation**: a negative epoch is converted to the right instant iff it is not a
     multiple of 10 ms, or is a whole second. -/
 theorem nt_exact_iff (ms : Int) (h : ms < 0) :
-    (toDatetimeNt ms).1 = 1000 * ms ↔ (ms % 10 ≠ 0 ∨ ms % 1000 = 0) := by
+    (toDatetimeNtOld ms).1 = 1000 * ms ↔ (ms % 10 ≠ 0 ∨ ms % 1000 = 0) := by
   rw [nt_negative_value ms h]
   have key := strippedFrac_eq_iff (ms.natAbs % 1000)
   constructor
@@ -61,13 +61,13 @@ theorem nt_exact_iff (ms : Int) (h : ms < 0) :
 
 /-- the same for the round trip ms → datetime → ms through the Windows branch -/
 theorem nt_roundtrip_iff (ms : Int) (h : ms < 0) :
-    dtToMs (toDatetimeNt ms).1 = ms ↔ (ms % 10 ≠ 0 ∨ ms % 1000 = 0) := by
+    dtToMs (toDatetimeNtOld ms).1 = ms ↔ (ms % 10 ≠ 0 ∨ ms % 1000 = 0) := by
   rw [← nt_exact_iff ms h, nt_negative_value ms h, dt_to_ms_floor]
   simp only
   omega
 
 /-- the Windows branch returns a tz-aware datetime exactly for the non-negative epochs -/
-theorem nt_aware_iff (ms : Int) : (toDatetimeNt ms).2 = true ↔ 0 ≤ ms := by
+theorem nt_aware_iff (ms : Int) : (toDatetimeNtOld ms).2 = true ↔ 0 ≤ ms := by
   by_cases h : 0 ≤ ms
   · rw [nt_nonneg_agrees ms h]; simp [h]
   · rw [nt_negative_value ms (by omega)]; simp [h]
@@ -75,15 +75,15 @@ theorem nt_aware_iff (ms : Int) : (toDatetimeNt ms).2 = true ↔ 0 ≤ ms := by
 /-- **FINDING (defect candidate, Windows only)**: −1500 ms becomes 1969-12-31 23:59:58.995 (−1005 ms), and the
     conversion is not monotone on negative epochs. -/
 theorem nt_finding_roundtrip_fails :
-    toDatetimeNt (-1500) = (-1005000, false) ∧ dtToMs (toDatetimeNt (-1500)).1 = -1005 := by decide +kernel
+    toDatetimeNtOld (-1500) = (-1005000, false) ∧ dtToMs (toDatetimeNtOld (-1500)).1 = -1005 := by decide +kernel
 
 theorem nt_finding_not_monotone :
-    (-1500 : Int) < -1234 ∧ (toDatetimeNt (-1234)).1 < (toDatetimeNt (-1500)).1 := by decide +kernel
+    (-1500 : Int) < -1234 ∧ (toDatetimeNtOld (-1234)).1 < (toDatetimeNtOld (-1500)).1 := by decide +kernel
 
 /-- one negative epoch in ten is affected: in every block of 1000 consecutive negative milliseconds exactly 99 are
     converted to a wrong instant (multiples of 10 that are not whole seconds) -/
 theorem nt_finding_share :
-    ((List.range 1000).filter (fun k => (toDatetimeNt (-(1000 + (k : Int)))).1 ≠ 1000 * (-(1000 + (k : Int))))).length = 99 := by
+    ((List.range 1000).filter (fun k => (toDatetimeNtOld (-(1000 + (k : Int)))).1 ≠ 1000 * (-(1000 + (k : Int))))).length = 99 := by
   decide +kernel
 
 /-- **the proposed repair** `datetime(1970,1,1,tzinfo=utc) + timedelta(seconds=epoch_time)` is exact (and aware)
@@ -95,10 +95,32 @@ theorem nt_patched_exact (ms : Int) (h : |ms| < 8589934592000) : toDatetimeNtPat
   unfold toDatetime at this
   rw [this]
 
-example : toDatetimeNt (-1234) = (-1234000, false) := by decide +kernel
-example : toDatetimeNt (-1097606850620) = (-1097606850062000, false) := by decide +kernel
+/-- **C15 on Windows, the code as it is now (after D39)**: the `nt` path is the same function as on every other platform —
+    for every epoch, with no range hypothesis — hence exact, tz-aware, round-tripping and monotone wherever `toDatetime` is. -/
+theorem nt_repaired_agrees (ms : Int) : toDatetimeNt ms = (toDatetime ms, true) := by
+  unfold toDatetimeNt toDatetime
+  simp only
+  split
+  · rw [fromTimestamp_eq_timedeltaSeconds]
+  · rfl
+
+theorem nt_repaired_exact (ms : Int) (h : |ms| < 8589934592000) :
+    toDatetimeNt ms = (1000 * ms, true) ∧ dtToMs (toDatetimeNt ms).1 = ms := by
+  rw [nt_repaired_agrees, ms_to_dt_exact ms h]
+  refine ⟨rfl, ?_⟩
+  show dtToMs (1000 * ms) = ms
+  rw [dt_to_ms_floor]; omega
+
+theorem create_utc_spec (us : Int) :
+    createUtcDatetime .naive us = .ok us ∧ createUtcDatetime .utc us = .assertionError
+      ∧ createUtcDatetime .other us = .assertionError := by
+  simp [createUtcDatetime, createUtcDatetimeFixed]
+
+example : toDatetimeNt (-1500) = (-1500000, true) := (nt_repaired_exact (-1500) (by decide)).1
+example : toDatetimeNtOld (-1234) = (-1234000, false) := by decide +kernel
+example : toDatetimeNtOld (-1097606850620) = (-1097606850062000, false) := by decide +kernel
 example : toDatetimeNtPatched (-1097606850620) = (-1097606850620000, true) := nt_patched_exact _ (by decide)
-example : (toDatetimeNt (-7)).1 = 1000 * (-7) := (nt_exact_iff (-7) (by decide)).mpr (by decide)
+example : (toDatetimeNtOld (-7)).1 = 1000 * (-7) := (nt_exact_iff (-7) (by decide)).mpr (by decide)
 
 /-! ## the full range of `datetime`: 0001-01-01 … 9999-12-31 -/
 
@@ -276,8 +298,8 @@ theorem lengthInSeconds_eq (a b : Int) (ha : |a| < 8589934592000) (hb : |b| < 85
 /-- **FINDING (defect candidate)**: `create_utc_datetime` never returns — its parameter `datetime` shadows the module,
     so a naive argument (the only one the assertion lets through) raises AttributeError; the repaired function returns
     the same wall clock labelled UTC. -/
-theorem create_utc_never_returns (tz : Tz) (us : Int) : ∀ r, createUtcDatetime tz us ≠ .ok r := by
-  intro r; cases tz <;> simp [createUtcDatetime]
+theorem create_utc_never_returns (tz : Tz) (us : Int) : ∀ r, createUtcDatetimeOld tz us ≠ .ok r := by
+  intro r; cases tz <;> simp [createUtcDatetimeOld]
 
 theorem create_utc_fixed_spec (us : Int) :
     createUtcDatetimeFixed .naive us = .ok us ∧ createUtcDatetimeFixed .utc us = .assertionError := by
